@@ -160,7 +160,8 @@ def rule_window(ctx, only=None):
             if kinds <= {"verify"} and kinds:
                 continue  # verification slice haystack[i+p .. i+n], not a candidate window
             k += 1
-            n += 1
+            # counted per search served: one window value hoisted in front of several branches still serves each search
+            n += max(1, len([c for c in cons if c[0] in ("search1", "searchnew", "position", "forloop", "memmem")]))
             key = "%s|window|%d" % (fn.path, k)
             at = len_atomizer(fn, bi, hroot)
             E = poly_of(end, at)
@@ -216,9 +217,9 @@ def rule_window(ctx, only=None):
                                   E, why, P, want,
                                   "occurrences ending at the last haystack position are never tried" if len((want - E).t) and list((want - E).t.values())[0] > 0 else "the scan can start too late to fit the needle"))
     if only is None:
-        ctx.floor("candidate windows in exact.rs / prefilter.rs", n, 7)
+        ctx.floor("searches over a candidate window in exact.rs / prefilter.rs", n, 7)
     else:
-        ctx.floor("candidate windows in the fuzzy prefilters", n, 3)
+        ctx.floor("searches over a candidate window in the fuzzy prefilters", n, 3)
 
 
 def rule_prefilter_arms(ctx):
@@ -428,6 +429,41 @@ def rule_exact_compare(ctx):
                 ctx.ok(site(fn, bi), "haystack window normalized (%s) before the element-wise comparison" % how)
             else:
                 ctx.violation("%s|iter-eq|%d" % (name, n), site(fn, bi), "element-wise comparison of a raw haystack window: %s" % show(a)[:120])
+        # the same comparison spelled element by element: zip(window, needle).all(|(h, n)| f(h) == g(n)) / !any(.. != ..)
+        for bi, t in fn.calls(lambda t: str(t.get("fn")).endswith("Iterator::all") or str(t.get("fn")).endswith("Iterator::any")):
+            recv = fn.expr_of_operand(t["args"][0])
+            z = [x for x in walk(recv) if x[0] == "call" and str(x[1]).endswith("Iterator::zip") and len(x[2]) == 2]
+            clo = fn.expr_of_operand(t["args"][1])
+            if not z or clo[0] != "closure":
+                continue
+            sides = ["haystack" if any(y[0] in ("arg", "local") and y[2] and "haystack" in y[2] for y in walk(a_)) else
+                     "needle" if any(y[0] in ("arg", "local") and y[2] and "needle" in y[2] for y in walk(a_)) else None for a_ in z[0][2]]
+            if sorted(x or "" for x in sides) != ["haystack", "needle"]:
+                continue
+            n += 1
+            hs = sides.index("haystack")
+            key = "%s|zip-compare|%d" % (name, n)
+            pre = normalized(facts, fn, z[0][2][hs])
+            if pre:
+                ctx.ok(site(fn, bi), "haystack window normalized (%s) before it is zipped with the needle" % pre)
+                continue
+            cf = get_fn(facts, M, clo[1])
+            cmps = [(cb, si, s_) for cb, si, s_ in cf.stmts(lambda s_: s_["k"] == "assign" and s_["rv"].get("bin") in ("Eq", "Ne"))] + \
+                   [(cb, None, ct) for cb, ct in cf.calls(lambda ct: str(ct.get("fn")).endswith("PartialEq::eq") or str(ct.get("fn")).endswith("PartialEq::ne"))]
+            if not cmps:
+                ctx.fail_closed("%s: the closure of the element-wise comparison at %s contains no comparison" % (name, site(fn, bi)))
+                continue
+            for cb, si, s_ in cmps:
+                ops = [cf.expr_of_operand(o) for o in ((s_["rv"]["a"], s_["rv"]["b"]) if si is not None else s_["args"][:2])]
+                hop = [o for o in ops if any(y[0] == "field" and y[2] == str(hs) and peel(y[1])[0] == "arg" and peel(y[1])[1] == 2 for y in walk(o))]
+                if len(hop) != 1:
+                    ctx.fail_closed("%s: cannot tell the haystack operand of the comparison in %s" % (name, cf.path))
+                    continue
+                how = normalized(facts, cf, hop[0])
+                if how:
+                    ctx.ok(site(cf, cb, si), "haystack element normalized (%s) inside the element-wise comparison of the zipped window" % how)
+                else:
+                    ctx.violation(key, site(cf, cb, si), "element-wise comparison of a raw haystack element: %s" % show(hop[0])[:120])
     ctx.floor("element-wise window comparisons", n, 5)
 
 
